@@ -66,8 +66,27 @@ func yamlScalar(b *bytes.Buffer, v jv.V) {
 			b.WriteString(v.N)
 		}
 	case jv.Str:
+		if yamlPlain && plainOK(v.S) {
+			b.WriteString(v.S)
+			return
+		}
 		yamlString(b, v.S)
 	}
+}
+
+// yamlPlain: string values that YAML 1.2 (core schema) reads as strings without quotes are
+// written as plain scalars (set for the duration of one RenderYAML call).
+var yamlPlain bool
+
+var plainWordRe = regexp.MustCompile(`^[A-Za-z][A-Za-z0-9_-]*( [A-Za-z0-9_-]+)*$`)
+var plainDateRe = regexp.MustCompile(`^[0-9]{4}-[0-9]{2}-[0-9]{2}$`)
+
+func plainOK(s string) bool {
+	switch strings.ToLower(s) {
+	case "true", "false", "null", "yes", "no", "on", "off", "y", "n", "nan", "inf":
+		return false
+	}
+	return plainWordRe.MatchString(s) || plainDateRe.MatchString(s)
 }
 
 func yamlFlow(b *bytes.Buffer, v jv.V, bare bool) {
@@ -134,7 +153,9 @@ func yamlBlockValue(b *bytes.Buffer, v jv.V, indent int, bare bool) {
 
 // RenderYAML writes v as YAML: flow style (JSON-like on one line) or block
 // style with every string double-quoted.
-func RenderYAML(v jv.V, flow, bareKeys bool) []byte {
+func RenderYAML(v jv.V, flow, bareKeys bool, plainStrings ...bool) []byte {
+	yamlPlain = len(plainStrings) > 0 && plainStrings[0] && !flow
+	defer func() { yamlPlain = false }()
 	var b bytes.Buffer
 	if flow || (v.K != jv.Obj && v.K != jv.Arr) || (v.K == jv.Obj && len(v.O) == 0) || (v.K == jv.Arr && len(v.A) == 0) {
 		yamlFlow(&b, v, bareKeys)
